@@ -199,10 +199,22 @@ def check_object(ctx, cname, cls, kwargs_repr, mutable, tag):
                     pass
                 except Exception as e:  # noqa: BLE001
                     problems.append(f"{what} of attribute {name!r} raised {type(e).__name__}, not AttributeError")
+        if any("did not raise" in x for x in problems):
+            # the object may be damaged now; report what was established and stop here
+            report(ctx, "object", f"{cname} ({'mutable' if mutable else 'default'} mode): " + "; ".join(problems),
+                   {"kind": "object", "class": cname, "mutable": mutable, "kwargs": kwargs_repr,
+                    "problems": problems, "tag": tag}, confirmed=True)
+            return None
         if m_set != [0, 95] or m_del != [0, 95]:
             problems.append("model: setattr/delattr not refused")
         if g.snapshot(m.input_parameters) != snap0:
             problems.append("definition changed by a refused attribute write/delete")
+        # input_parameters hands out a fresh mapping: editing it does not touch the automaton
+        p2 = m.input_parameters
+        p2["states"] = "overwritten"
+        p2.clear()
+        if g.snapshot(m.input_parameters) != snap0:
+            problems.append("editing the dict returned by input_parameters changed the automaton")
         # deep immutability of what is stored (default mode)
         if not mutable:
             bad = []
@@ -463,6 +475,10 @@ def check_machine_reads(ctx, cname, cls, kwargs_repr, mutable, words, tag):
         before = snap_obj(m)
         for w in words:
             calls = [("read_input_stepwise", lambda: bounded_read(m, w))]
+            if bounded_read(m, w) != 40:
+                # the run ends within the budget, so the unbounded entry points terminate too
+                calls += [("read_input", lambda: m.read_input(w)), ("accepts_input", lambda: m.accepts_input(w)),
+                          ("in", lambda: w in m)]
             if cname == "MNTM":
                 calls.append(("read_input_as_ntm", lambda: len(list(itertools.islice(m.read_input_as_ntm(w), 40)))))
             if cname in ("DPDA", "NPDA"):
